@@ -272,18 +272,25 @@ def build(run):
         unguarded = _unguarded_count_reads(lt)
         if bad:
             return violated("signature functions read raw counters: " + "; ".join(bad), replay={"reads": bad}, reproduced=False, backend="ast")
-        if unguarded:
-            # the syntactic guard analysis does not recognise the shape of the code: decide the same contract by execution (bounded):
-            # for a label that IS in the renumbering the signature data must not depend on its raw count
+        # by execution as well (whatever the shape of the guard): for a label that IS in the renumbering the signature data is a function of its NEW number only,
+        # for every new number including 0, and distinct new numbers give distinct data
+        per_new = {}
+        for new in (0, 1, 2, 3, 17):
             outs = set()
-            for cnt in (0, 1, 7, 12345, 10 ** 9):
+            for cnt in (0, 1, 2, 7, 12345, 10 ** 9):
                 lab = C.Label(cnt)
-                outs.add(repr(lab._ufl_signature_data_({lab: 3})))
+                outs.add(repr(lab._ufl_signature_data_({lab: new})))
             if len(outs) != 1:
-                return violated("Label._ufl_signature_data_ depends on the raw count of a label that is in the renumbering: " + ", ".join(sorted(outs)),
-                                replay={"outputs": sorted(outs)}, reproduced=True, backend="exec")
+                return violated(f"Label._ufl_signature_data_ depends on the raw count of a label that is renumbered to {new}: " + ", ".join(sorted(outs)),
+                                replay={"new_number": new, "outputs": sorted(outs)}, reproduced=True, backend="exec")
+            per_new[new] = outs.pop()
+        if len(set(per_new.values())) != len(per_new):
+            return violated(f"Label._ufl_signature_data_ does not distinguish labels renumbered differently: {per_new}", replay={"outputs": {str(k): v for k, v in per_new.items()}},
+                            reproduced=True, backend="exec")
+        if unguarded:
+            # the syntactic guard analysis does not recognise the shape of the code: the contract is decided by the executions above only (bounded)
             from ufv.core import bounded_ok
-            return bounded_ok(5, "Label._ufl_signature_data_ executed for 5 raw counts with the label present in the renumbering (the guard of the raw "
+            return bounded_ok(30, "Label._ufl_signature_data_ executed for 6 raw counts x 5 new numbers with the label present in the renumbering (the guard of the raw "
                                  "count read has a shape the AST analysis does not recognise: " + "; ".join(unguarded) + ")",
                               sample="signature data of a renumbered label is independent of its raw count")
         return proved("ast", vcs=n, sample=f"{n} signature functions read counters only through `renumbering`")
